@@ -162,6 +162,22 @@ def class_rules(ctx, cname):
                        "self.%s is read by update() but is neither re-initialised at epoch start nor epoch-guarded "
                        "(read only from the 2nd update of an epoch and rewritten by every non-drift update)" % x if not ok
                        else ("epoch-guarded and rewritten by every non-drift update" if guarded and rewritten else "assigned earlier in the same update under an implied guard"), e)
+            # ---- LIVE-object: a repository object that update() mutates must have been created in the epoch it serves
+            from ..evalr import _writes_self
+            for tr in (trd, trn):
+                for e in tr.calls():
+                    if e.callee[0] != "foreign" or "recv" not in e.d:
+                        continue
+                    ccls = prog.classes.get(e.callee[1])
+                    cfi = prog.lookup(ccls, e.callee[2]) if ccls is not None else None
+                    if cfi is None or not _writes_self(prog, ccls, cfi, set()):
+                        continue
+                    root = _root_attr(q.unmut(e.recv))
+                    n_live += 1
+                    bad = root is not None and root in conf
+                    ctx.ob("LIVE", e.func.qualname, "%s.%s() mutates an object created for the current epoch" % (e.callee[1], e.callee[2]), not bad,
+                           ("the %s held in self.%s is created once in __init__ and mutated by %s() in every epoch: what earlier epochs put into it "
+                            "(e.g. accumulated containers) is still there after a drift" % (e.callee[1], root, e.callee[2])) if bad else "", e)
             # ---- shift invariance of the lifetime counter
             for tr in (trd, trn):
                 shift_invariance(ctx, cname, tr, tot, since)
